@@ -334,6 +334,18 @@ func (w *World) Up() bool { return w.Inc > 0 && w.Started[w.Inc-1] }
 
 // Send hands a datagram to the simulated network (scheduler context).
 func (w *World) Send(li int, b []byte, src net.UDPAddr, ifindex int, kind string, actor int, meta interface{}) *DG {
+	if b := w.LSpecs[li].IfIndex; b != 0 {
+		// a listener bound to an interface does not ask for control messages (listen4/listen6 enable them only when
+		// unbound); when one is present anyway it must not override the binding
+		switch w.T.Draw(4) {
+		case 0:
+			ifindex = b + 7
+		case 1:
+			ifindex = b
+		default:
+			ifindex = 0
+		}
+	}
 	w.nextDG++
 	dg := &DG{ID: w.nextDG, L: li, V6: w.LSpecs[li].V6, Bytes: b, Src: src, IfIndex: ifindex, Kind: kind, Actor: actor, SentAt: w.Sim.Now(), Meta: meta}
 	w.DGs = append(w.DGs, dg)
